@@ -856,11 +856,16 @@ fn main() {
         }
         writeln!(r, "        }}\n    }}\n}}").unwrap();
     }
-    writeln!(r, "#[macro_export]\nmacro_rules! for_each_sequence {{\n    ($m:ident, $name:expr, $($args:expr),*) => {{\n        match $name {{").unwrap();
-    for s in &seqs {
-        writeln!(r, "            {:?} => Some($m::<zvt::{}>($($args),*).await),", s.name, s.name).unwrap();
+    writeln!(r, "pub fn read(en: &str, chunks: Vec<Vec<u8>>) -> Option<String> {{\n    Some(match en {{").unwrap();
+    for e in &enums {
+        writeln!(r, "        {:?} => crate::transport::run_read::<zvt::{}>(chunks),", e.name, e.name).unwrap();
     }
-    writeln!(r, "            _ => None,\n        }}\n    }};\n}}").unwrap();
+    writeln!(r, "        _ => return None,\n    }})\n}}").unwrap();
+    writeln!(r, "pub fn seq(name: &str, input: &[u8], items: Vec<Vec<u8>>) -> Option<String> {{\n    Some(match name {{").unwrap();
+    for s in &seqs {
+        writeln!(r, "        {:?} => crate::seq::run_seq::<zvt::{}>(input, items),", s.name, s.name).unwrap();
+    }
+    writeln!(r, "        _ => return None,\n    }})\n}}").unwrap();
     write_if_changed(&out_rs, &r);
 
     println!("extract: {} structs, {} enums, {} sequences, {} error codes, {} file ids, {} problems", ordered.len(), enums.len(), seqs.len(), errors.len(), file_ids.len(), problems.len());
